@@ -138,6 +138,11 @@ def c13_cases():
         # window inside one helper is met by construction
         for k in range(1, na + 3):
             cases.append(("tok", ai, ai, k))
+        # the same windows met on ONE thread: B is called from inside A's parse
+        bi = (ai + 1 + H("nestpartner", ai) % (n - 1)) % n
+        for k in range(1, na + 3):
+            cases.append(("nest", ai, bi, k))
+            cases.append(("nest", ai, ai, k))
         bi = (ai + 1 + H("genpartner", ai) % (n - 1)) % n
         for k in range(1, 700, 9):
             cases.append(("gen", ai, bi, k))
@@ -219,6 +224,18 @@ def c13_spec(ci):
             spec["schedule"] = [[0, 1 << 40], [1, 1 << 40]]
         return spec
     A, B = list(progs[ai]), list(progs[bi])
+    if kind == "nest":
+        inner = {"op": "gen" if ci % 5 == 0 else "parse", "filename": "act1.c", "items": B}
+        a0 = {"op": "parse", "filename": "act0.c", "items": A, "nest": {"at": k, "ops": [inner]}}
+        return {
+            "property": "C13",
+            "mode": "token",
+            "policy": {"kind": "sweep"},
+            "schedule": [[0, 1 << 40]],
+            "actors": [{"reuse": False, "ops": [a0], "kind": kind, "markers": {"strings": ["act0.c", "tag0"], "line_block": None, "not_for": {}}}],
+            "check_fresh": False,
+            "swarm": {"faulty": False, "theme": "sweep:" + kind},
+        }
     if kind == "tok":
         opk = ["parse", "parse", "roundtrip", "parse_file"][ci % 4]
         a0 = {"op": opk, "filename": "act0.c", "items": A}
